@@ -29,7 +29,10 @@ SPLITS = {
     "plainA": [dict(nr=[1, 2], nt=[2, 1], nte=[]), dict(nr=[2, 1], nt=[1, 2], nte=[]), dict(nr=[2, 2], nt=[1, 1], nte=[])],
     "extA": [dict(nr=[1, 2], nt=[2, 1], nte=[1]), dict(nr=[2, 1], nt=[1, 2], nte=[1]), dict(nr=[2, 1], nt=[2, 1], nte=[1, 2])],
     "plainB": [dict(nr=[1, 2], nt=[2, 1], nte=[]), dict(nr=[1, 2], nt=[1, 2], nte=[]), dict(nr=[2, 1], nt=[2, 1], nte=[])],
-    "extB": [dict(nr=[1, 2], nt=[2, 1], nte=[1]), dict(nr=[1, 2], nt=[1, 1], nte=[2]), dict(nr=[2, 1], nt=[2, 1], nte=[1, 1])],
+    # (second split: as many external sources as users and every data block of the same size - where "a list of blocks" and
+    # "a stacked array" are most easily confused)
+    "extB": [dict(nr=[1, 2], nt=[2, 1], nte=[1]), dict(nr=[1, 2], nt=[1, 1], nte=[1, 1]), dict(nr=[2, 1], nt=[2, 1], nte=[1, 1]),
+             dict(nr=[1, 2], nt=[1, 1], nte=[2])],
     "plainK3": [dict(nr=[1, 2], nt=[2, 1], nte=[]), dict(nr=[2, 1, 1], nt=[1, 1, 2], nte=[]), dict(nr=[1, 1, 2], nt=[2, 1, 1], nte=[])],
     "extK3": [dict(nr=[1, 2], nt=[2, 1], nte=[1]), dict(nr=[2, 1, 1], nt=[1, 1, 2], nte=[1]), dict(nr=[1, 1, 2], nt=[2, 1, 1], nte=[2])],
 }
